@@ -15,7 +15,13 @@ PROP = dict(
          "oracles). Random DAGs of ordinary and library cells (unfolded size <= 1500) x 0..5 random cursor paths incl. "
          "the root, nested and shared positions through NewMerkleProver/Cursor/CreateProof (mk.prune, go.prune); chains "
          "of depth 1022..1025; unsupported inputs (trees containing pruned/Merkle cells) and non-existing cursor paths "
-         "(model = code only: err / panic). non-trivial = distinct (key, dictionary) resp. (tree, non-empty path set).",
+         "(model = code only: err / panic). Key widths that are not a multiple of 8 (real tlb.UintN keys: 1..7, 9, 12, 15, 17, "
+         "19, 31, 33, 63 bits) with every present key, random absent keys and absent keys that differ from a present "
+         "key in exactly a non-empty subset of its last 1..7 bits (also for the byte-multiple widths); dictionaries "
+         "whose leaves reference library cells (exotic cells on the kept part of the proof); TWO proofs from ONE "
+         "prover (mk.prove2/go.prove2: present-present incl. first/last key, absent-then-present; mk.prune2/go.prune2: "
+         "two cursors with independent path sets, second proof compared with a fresh prover's). "
+         "non-trivial = distinct (key, dictionary) resp. (tree, non-empty path set) resp. (pair of requests, tree).",
     trusted_base=[
         "hand model lean/TongoModel/Merkle.lean tied to boc/merkle_proof.go, immutableCell.pruneCells, "
         "tlb.ProveKeyInHashmap/loadLabel by exact correspondence on every run (proof bytes are parsed by the real parser "
@@ -59,7 +65,9 @@ PROP = dict(
                "alone with the hash DEFINITION: committed hash/depth = original root's, child level-0 hash = committed, "
                "every pruned branch stores hash/depth of what it replaces, kept cells unchanged, WFExotic, value "
                "decodable from the proof by an independent lookup AND by the library's Hashmap decoder, absent key => "
-               "error, Go's own Hash() of the proof = definition. A genuine defect was found and fixed (pruned set "
+               "error for every key width incl. non-byte-multiples (absent_key_errors is a theorem for keys of any "
+               "length: the model compares all key bits), a second proof from the same prover is as good as a fresh "
+               "prover's (the model gives every Cursor() its own prune set), Go's own Hash() of the proof = definition. A genuine defect was found and fixed (pruned set "
                "keyed by *immutableCell pruned the proven leaf when its sibling was the same cell).",
     level_note="assurance = min(theorems about the model, tie); the tie is differential. The byte-level BOC round trip of "
                "the proof is C01's subject.",
